@@ -104,24 +104,30 @@ def impl_export(case):
         with warnings.catch_warnings():
             warnings.simplefilter("ignore")
             lr = LineageRunner(sql, dialect=dialect, **kwargs)
-            views = _views(lr)
-            if case.get("via") == "wsgi":
-                st, resp = post_lineage(sql, dialect)
-                if not st.startswith("200"):
-                    return {"error": "wsgi", "status": st, "msg": str(resp)[:200]}
-                verbose = resp["verbose"]
-                if SUMMARY_SEP not in verbose:
-                    return {"error": "wsgi", "status": st, "msg": "no summary separator in the verbose text"}
-                return {"table": resp["dag"], "column": resp["column"], "summary": verbose.split(SUMMARY_SEP, 1)[1],
-                        "views": views, "via": "wsgi"}
-            return {"table": lr.to_cytoscape(), "column": lr.to_cytoscape(LineageLevel.COLUMN), "summary": str(lr),
-                    "views": views}
+            lr.statements()          # the analysis itself: its failures are C10's subject, not this property's
     except X.InvalidSyntaxException as e:
         return {"rejected": str(e)[-200:]}
     except BaseException as e:  # noqa
         if isinstance(e, (KeyboardInterrupt, SystemExit)):
             raise
         return sqlimpl.classify_exception(e)
+    # the analysis succeeded: from here on an exception is a failure of the export itself
+    try:
+        with warnings.catch_warnings():
+            warnings.simplefilter("ignore")
+            views = _views(lr)
+            if case.get("via") == "wsgi":
+                st, resp = post_lineage(sql, dialect)
+                if not st.startswith("200") or SUMMARY_SEP not in resp.get("verbose", ""):
+                    return {"export_error": {"error": "wsgi", "status": st, "msg": str(resp)[:200]}}
+                return {"table": resp["dag"], "column": resp["column"], "summary": resp["verbose"].split(SUMMARY_SEP, 1)[1],
+                        "views": views, "via": "wsgi"}
+            return {"table": lr.to_cytoscape(), "column": lr.to_cytoscape(LineageLevel.COLUMN), "summary": str(lr),
+                    "views": views}
+    except BaseException as e:  # noqa
+        if isinstance(e, (KeyboardInterrupt, SystemExit)) and case.get("via") != "wsgi":
+            raise
+        return {"export_error": sqlimpl.classify_exception(e)}
 
 
 # =============================================================================================== oracle (implementation only)
@@ -170,6 +176,8 @@ def oracle(r):
     """-> (failures, d24) : list of (check name, detail) the property fails on; d24 = duplicate ids explained by the class"""
     fails = []
     d24 = []
+    if "export_error" in r:
+        return [("export:raises", r["export_error"])], []
     v = r["views"]
     # ---------------------------------------------------------------- table level
     T = _data(r["table"])
@@ -476,14 +484,14 @@ def gen_cases(chk):
         # quick: every third shape, rotating with the seed (the bounded-exhaustive set is covered by C01/C02 and by thorough)
         shapes = [s for i, s in enumerate(shapes) if i % 3 == chk.seed % 3]
     else:
-        shapes = [s for i, s in enumerate(shapes) if i % 5 == chk.seed % 5]
+        shapes = [s for i, s in enumerate(shapes) if i % 6 == chk.seed % 6]
     cases += [(n, [s], None) for n, s in shapes]
-    n_rand = 1500 if chk.tier == "thorough" else 220
+    n_rand = 1200 if chk.tier == "thorough" else 220
     R = gensql.Rand(chk.rng, max_depth=3 if chk.tier == "thorough" else 2)
     for i in range(n_rand):
         d = chk.rng.choice([1, 2, 2, 3, 4]) if chk.tier == "thorough" else chk.rng.choice([1, 2, 2])
         cases.append((f"rand-{i}", [R.stmt(d)], None))
-    n_scripts = 400 if chk.tier == "thorough" else 70
+    n_scripts = 300 if chk.tier == "thorough" else 70
     for i in range(n_scripts):
         cases.append((f"script-{i}", random_script(chk, R), None))
     return cases
@@ -491,6 +499,11 @@ def gen_cases(chk):
 
 # =============================================================================================== the check
 def is_result(r):
+    """the analysis succeeded (the export may still have raised: `export_error`)"""
+    return isinstance(r, dict) and ("views" in r or "export_error" in r)
+
+
+def exported(r):
     return isinstance(r, dict) and "views" in r
 
 
@@ -549,9 +562,9 @@ def part_corpus(chk, st, wsgi_every):
         st.c[tag] += 1
         st.accept[c["dialect"]] += 1
         fails, d24 = oracle(r)
-        nontrivial = any("source" in d for d in _data(r["column"]) + _data(r["table"]))
+        nontrivial = exported(r) and any("source" in d for d in _data(r["column"]) + _data(r["table"]))
         chk.count(canon_json([tag, c["sql"], c["dialect"], c["metadata"]]), nontrivial)
-        if edge_id_clash(r):
+        if exported(r) and edge_id_clash(r):
             st.c["note:node-id-equals-edge-id"] += 1
         if d24:
             st.c["D24-class"] += 1
@@ -563,7 +576,7 @@ def part_corpus(chk, st, wsgi_every):
             st.c["oracle-fails"] += 1
             if first is None:
                 first = (c, fails)
-        elif st.c[tag] % 150 == 1:
+        elif st.c[tag] % 150 == 1 and exported(r):
             chk.sample({"origin": c["origin"], "dialect": c["dialect"], "via": c.get("via", "runner"),
                         "table_elems": len(r["table"]), "column_elems": len(r["column"]), "summary": r["summary"][:160]})
     if first is not None:
@@ -597,7 +610,7 @@ def eval_generated(drv, stmts, metadata, dialect, via=None):
     if not is_result(r):
         return sql, r, None, None, None
     fails, d24 = oracle(r)
-    diffs = best_diffs(drv, stmts, metadata, r, dialect)
+    diffs = best_diffs(drv, stmts, metadata, r, dialect) if exported(r) else None
     return sql, r, diffs, fails, d24
 
 
@@ -643,7 +656,11 @@ def part_generated(chk, drv, st, dialects, wsgi_every):
     for ci, ((name, ss, md), a) in enumerate(zip(cases, rend)):
         if "sql" not in a:
             raise Infra("model driver error: " + str(a.get("error")))
-        ds = dialects if not name.startswith("script") else dialects[:2]
+        if chk.tier == "thorough":
+            ds = dialects if not name.startswith("script") else dialects[:2]
+        else:
+            # quick: ansi + one of the other dialects, rotating over the inputs
+            ds = [dialects[0], dialects[1 + (ci + chk.seed) % (len(dialects) - 1)]]
         for d in ds:
             jobs.append((ci, d, None))
         if ci % wsgi_every == chk.seed % wsgi_every and md is None:
@@ -655,7 +672,7 @@ def part_generated(chk, drv, st, dialects, wsgi_every):
     # model answers with the implementation's iteration orders
     reqs, idx = [], []
     for ji, ((ci, d, via), r) in enumerate(zip(jobs, res)):
-        if is_result(r):
+        if exported(r):
             reqs.append(model_request(cases[ci][1], r, cases[ci][2]))
             idx.append(ji)
     ans = dict(zip(idx, drv.ask(reqs)))
@@ -672,6 +689,13 @@ def part_generated(chk, drv, st, dialects, wsgi_every):
         st.accept[d] += 1
         st.c["gen" + ("-wsgi" if via else "")] += 1
         st.c["kind:" + kind] += 1
+        if not exported(r):
+            fails, _ = oracle(r)
+            chk.count(canon_json(["gen", via, rend[ci]["sql"], d, md]), False)
+            st.c["oracle-fails"] += 1
+            if first_fail is None:
+                first_fail = (ci, d, via, fails)
+            continue
         a = ans[ji]
         if "out" not in a:
             raise Infra("model driver error: " + str(a.get("error")))
@@ -742,10 +766,10 @@ def part_generated(chk, drv, st, dialects, wsgi_every):
             return bool(d2)
         small = shrink_script(ss, differs)
         sql, r2, d2, f2, _ = eval_generated(drv, small, md, d, via)
-        a = drv.ask1(model_request(small, r2 if is_result(r2) else None, md))
+        a = drv.ask1(model_request(small, r2 if exported(r2) else None, md))
         rec = {"kind": "export-correspondence", "ast": small, "sql": sql, "dialect": d, "metadata": md, "via": via,
                "differs_in": [x[0] for x in (d2 or diffs)],
-               "impl": {"table": _norm(r2.get("table")), "column": _norm(r2.get("column")), "summary": r2.get("summary")} if is_result(r2) else r2,
+               "impl": {"table": _norm(r2.get("table")), "column": _norm(r2.get("column")), "summary": r2.get("summary")} if exported(r2) else r2,
                "model": a.get("out")}
         if f2:
             chk.violation("the export of a generated input is not faithful to the runner's own lineage graph: "
@@ -776,6 +800,69 @@ def shrink_script(stmts, pred):
     return cur
 
 
+def _ds_json(o):
+    from sqllineage.core.models import Path, Table
+    if isinstance(o, Table):
+        sch, n = str(o).rsplit(".", 1)
+        return ["t", sch, n]
+    if isinstance(o, Path):
+        return ["p", str(o)]
+    return ["q", o.query_raw]
+
+
+def _node_json(n):
+    from sqllineage.core.models import Column, SubQuery
+    if isinstance(n, Column):
+        p = n.parent
+        return ["c", str(n), _ds_json(p) if p is not None else None], \
+            {"raw": n.raw_name, "parents": [[_ds_json(o), str(o)] for o in n.parent_candidates]}
+    return _ds_json(n), ({"alias": n.alias} if isinstance(n, SubQuery) else None)
+
+
+def direct_request(g, compound):
+    return {"cmd": "exportgraph", "compound": compound, "nodes": [list(_node_json(x)) for x in g.nodes],
+            "edges": [[_node_json(u)[0], _node_json(v)[0]] for u, v in g.edges]}
+
+
+def graph_from_request(q):
+    """rebuild the hand-made networkx graph a `direct-graph` replay names"""
+    import networkx as nx
+    from sqllineage.core.models import Column, Path, SubQuery, Table
+
+    def ds(j, printed=None):
+        if j[0] == "t":
+            return Table(f"{j[1]}.{j[2]}")
+        if j[0] == "p":
+            return Path(j[1])
+        return SubQuery(None, j[1], printed)
+    g = nx.DiGraph()
+    objs = []
+    for nj, pay in q["nodes"]:
+        if nj[0] == "c":
+            c = Column(pay["raw"])
+            for d, printed in pay["parents"]:
+                c.parent = ds(d, printed)
+            objs.append(c)
+        else:
+            objs.append(ds(nj, (pay or {}).get("alias")))
+        g.add_node(objs[-1])
+    keys = [canon_json(nj) for nj, _ in q["nodes"]]
+    for u, v in q["edges"]:
+        g.add_edge(objs[keys.index(canon_json(u))], objs[keys.index(canon_json(v))])
+    return g
+
+
+def direct_bad(q, out):
+    """oracle on a hand-made graph: ids are the printed names of the nodes, in order; references resolve; all edges are there"""
+    D = _data(out)
+    ids = [d.get("id") for d in D if "source" not in d and ("parent" in d or not q["compound"])]
+    pids = {d.get("id") for d in D if "source" not in d and "parent" not in d}
+    want = [x[0][1] if x[0][0] in ("c", "p") else x[0][1] + "." + x[0][2] for x in q["nodes"]]
+    return ids != want or any(d.get("parent") not in pids for d in D if "parent" in d) or \
+        any(d.get("source") not in ids or d.get("target") not in ids for d in D if "source" in d) or \
+        len([d for d in D if "source" in d]) != len(q["edges"])
+
+
 def part_direct(chk, drv, st):
     """direct correspondence of io.to_cytoscape with the model on hand-made graphs (no SQL): every order of a small node set,
     owners that print alike, a shared owner under two aliases, an owner-less column, a Path owner"""
@@ -789,21 +876,6 @@ def part_direct(chk, drv, st):
         for o in owners:
             c.parent = o
         return c
-
-    def ds_json(o):
-        if isinstance(o, Table):
-            s, n = str(o).rsplit(".", 1)
-            return ["t", s, n]
-        if isinstance(o, Path):
-            return ["p", str(o)]
-        return ["q", o.query_raw]
-
-    def node_json(n):
-        if isinstance(n, Column):
-            p = n.parent
-            return ["c", str(n), ds_json(p) if p is not None else None], \
-                {"raw": n.raw_name, "parents": [[ds_json(o), str(o)] for o in n.parent_candidates]}
-        return ds_json(n), ({"alias": n.alias} if isinstance(n, SubQuery) else None)
 
     t1, t2 = Table("t1"), Table("s1.t2")
     q1, q1b, q2 = SubQuery(None, "(select a from t1)", "x"), SubQuery(None, "(select a from t1)", "y"), SubQuery(None, "(select a from t2)", "x")
@@ -829,18 +901,22 @@ def part_direct(chk, drv, st):
             g.add_edge(a, b)
         if len(cols) == 3:
             g.add_edge(cols[0], cols[2])
-        impls.append(to_cytoscape(g, compound=True))
-        reqs.append({"cmd": "exportgraph", "compound": True, "nodes": [list(node_json(x)) for x in g.nodes],
-                     "edges": [[node_json(u)[0], node_json(v)[0]] for u, v in g.edges]})
+        reqs.append(direct_request(g, True))
+        try:
+            impls.append(to_cytoscape(g, compound=True))
+        except Exception as e:
+            impls.append([{"data": {"raised": type(e).__name__}}])
     # table level: tables and a path
     for perm in itertools.permutations([t1, t2, p1]):
         g = nx.DiGraph()
         for x in perm:
             g.add_node(x)
         g.add_edge(perm[0], perm[1]); g.add_edge(perm[0], perm[2]); g.add_edge(perm[2], perm[2])
-        impls.append(to_cytoscape(g))
-        reqs.append({"cmd": "exportgraph", "compound": False, "nodes": [list(node_json(x)) for x in g.nodes],
-                     "edges": [[node_json(u)[0], node_json(v)[0]] for u, v in g.edges]})
+        reqs.append(direct_request(g, False))
+        try:
+            impls.append(to_cytoscape(g))
+        except Exception as e:
+            impls.append([{"data": {"raised": type(e).__name__}}])
     ans = drv.ask(reqs)
     for q, i, a in zip(reqs, impls, ans):
         n += 1
@@ -849,16 +925,8 @@ def part_direct(chk, drv, st):
             raise Infra("model driver error: " + str(a.get("error")))
         if a["elems"] != i:
             st.c["direct:impl!=model"] += 1
-            # oracle on the hand-made graph: references resolve, ids = printed names
-            D = _data(i)
-            ids = [d.get("id") for d in D if "source" not in d and ("parent" in d or not q["compound"])]
-            pids = {d.get("id") for d in D if "source" not in d and "parent" not in d}
-            want = [x[0][1] if x[0][0] == "c" else (x[0][1] if x[0][0] == "p" else x[0][1] + "." + x[0][2]) for x in q["nodes"]]
-            bad = ids != want or any(d.get("parent") not in pids for d in D if "parent" in d) or \
-                any(d.get("source") not in ids or d.get("target") not in ids for d in D if "source" in d) or \
-                len([d for d in D if "source" in d]) != len(q["edges"])
             rec = {"kind": "direct-graph", "request": q, "impl": i, "model": a["elems"]}
-            if bad:
+            if direct_bad(q, i):
                 chk.violation("io.to_cytoscape on a hand-made graph: node ids / references are not those of the graph", rec)
                 return n
             if len(chk.stale) < 20:
@@ -879,7 +947,7 @@ def replay_finding(chk, drv, st):
         chk.stale.append({"kind": "finding-witness", "id": "D24", "why": "the witness is no longer analysable", "impl": r})
         return
     fails, d24 = oracle(r)
-    ids = [d.get("id") for d in _data(r["column"]) if "source" not in d]
+    ids = [d.get("id") for d in _data(r["column"]) if "source" not in d] if exported(r) else []
     if d24 and not fails and sorted(_dups(ids)) == sorted(w["duplicate_ids"]):
         chk.known("D24")
         st.c["D24-witness-reproduced"] += 1
@@ -905,12 +973,18 @@ def run(chk):
         chk.coverage["leanchecker"] = "accepted" if ok else "REJECTED: " + out[-300:]
         if not ok:
             chk.lean.forbidden.append("leanchecker rejected SqlLineage.Props.C18: " + out[-300:])
-    dialects = ["ansi", "sparksql", "tsql", "bigquery", "postgres", "snowflake"] if thorough else ["ansi", "sparksql", "bigquery"]
+    dialects = ["ansi", "sparksql", "tsql", "bigquery", "postgres"] if thorough else ["ansi", "sparksql", "bigquery", "tsql"]
+    import time
     try:
+        t0 = time.time()
         replay_finding(chk, drv, st)
         n_direct = part_direct(chk, drv, st)
+        t1 = time.time()
         hstats, n_corpus = part_corpus(chk, st, wsgi_every=6 if thorough else 12)
+        t2 = time.time()
         n_cases, n_jobs = part_generated(chk, drv, st, dialects, wsgi_every=10 if thorough else 20)
+        log(f"[c18] direct {t1 - t0:.1f}s ({n_direct} graphs)  corpus {t2 - t1:.1f}s ({n_corpus} runs)  "
+            f"generated {time.time() - t2:.1f}s ({n_cases} inputs, {n_jobs} runs)")
     finally:
         sqlimpl.close_pool()
     chk.coverage.update({"corpus": hstats, "corpus_runs": n_corpus, "generated_inputs": n_cases, "generated_runs": n_jobs,
@@ -930,8 +1004,8 @@ def run(chk):
         rule="corpus = every SQL the repository's tests pass to LineageRunner (harvested by parsing tests/ with `ast`, both the sqlfluff "
              "dialect and the legacy parser) + data/tpcds/*.sql (quick: a third of them, rotating with the seed); generated = "
              "export-specific shapes (owners printing alike, shared owners, bare columns named like owners, CTEs, DDL/drop/rename "
-             "scripts, metadata) + gensql.enumerate_shapes (a third / a fifth, rotating) + seeded random statements and 2-4 statement "
-             "scripts, under the listed dialects; a share of all inputs goes through POST /lineage; direct = io.to_cytoscape on "
+             "scripts, metadata) + gensql.enumerate_shapes (a third / a sixth, rotating) + seeded random statements and 2-4 statement "
+             "scripts, under the listed dialects (quick: ansi + one other dialect per input, rotating); a share of all inputs goes through POST /lineage; direct = io.to_cytoscape on "
              "hand-made graphs in every node order. Each result: structural oracle on the implementation alone; generated/direct: "
              "exact comparison with the model's export. non-trivial = the export has at least one edge; distinct by (route, SQL, "
              "dialect, metadata)",
@@ -954,11 +1028,21 @@ def replay(chk, obj):
             fails = fails + [("ids_unique", d24)]
         print(json.dumps({"sql": r["sql"], "dialect": case["dialect"], "via": r.get("via") or "runner",
                           "failed_checks": [[n, d] for n, d in fails], "d24_class_duplicates": d24,
-                          "table": res["table"], "column": res["column"], "summary": res["summary"]}, indent=1, default=str))
+                          "table": res.get("table"), "column": res.get("column"), "summary": res.get("summary")}, indent=1, default=str))
         return 1 if fails else 0
     if kind == "direct-graph":
-        print(json.dumps(r, indent=1)[:4000])
-        return 1
+        from sqllineage.io import to_cytoscape
+        q = r["request"]
+        g = graph_from_request(q)
+        try:
+            out = to_cytoscape(g, compound=q["compound"]) if q["compound"] else to_cytoscape(g)
+        except Exception as e:
+            out = [{"data": {"raised": type(e).__name__}}]
+        a = Driver().ask1(direct_request(g, q["compound"]))
+        bad = direct_bad(q, out)
+        print(json.dumps({"graph": q, "export": out, "model": a.get("elems"), "ids_or_references_wrong": bad,
+                          "differs_from_model": a.get("elems") != out}, indent=1)[:6000])
+        return 1 if (bad or a.get("elems") != out) else 0
     if kind == "export-correspondence":
         drv = Driver()
         sql, res, diffs, fails, d24 = eval_generated(drv, r["ast"], r.get("metadata"), r.get("dialect", "ansi"), r.get("via"))
